@@ -76,14 +76,15 @@ func parseWire(w []byte) ([]frame, error) {
 // ---- simulated transport -----------------------------------------------------
 
 type simStream struct {
-	data   []byte
-	pos    int
-	cuts   []int // sorted absolute offsets at which a Read must stop
-	eofAt  int   // stream ends here (truncation) when >= 0
-	reads  int
-	wrote  bytes.Buffer
-	wfrag  func(n int) int
-	resetW bool
+	data     []byte
+	pos      int
+	cuts     []int // sorted absolute offsets at which a Read must stop
+	eofAt    int   // stream ends here (truncation) when >= 0
+	reads    int
+	wrote    bytes.Buffer
+	wfrag    func(n int) int
+	resetW   bool
+	eofReads int
 }
 
 func (s *simStream) Read(p []byte) (int, error) {
@@ -92,17 +93,29 @@ func (s *simStream) Read(p []byte) (int, error) {
 		end = s.eofAt
 	}
 	if s.pos >= end {
+		// a reader that keeps asking after the end of the stream would spin forever: that is a framing failure, not a hang of the harness
+		s.eofReads++
+		if s.eofReads > 100000 {
+			panic("the packet reader keeps calling Read after the stream has ended (it never returns)")
+		}
 		return 0, io.EOF
 	}
 	n := len(p)
 	if s.pos+n > end {
 		n = end - s.pos
 	}
-	for _, c := range s.cuts {
-		if c > s.pos && c < s.pos+n {
-			n = c - s.pos
-			break
+	// cuts are sorted: the first one behind the current position decides (binary search: there can be millions)
+	lo, hi := 0, len(s.cuts)
+	for lo < hi {
+		mid := (lo + hi) / 2
+		if s.cuts[mid] > s.pos {
+			hi = mid
+		} else {
+			lo = mid + 1
 		}
+	}
+	if lo < len(s.cuts) && s.cuts[lo] < s.pos+n {
+		n = s.cuts[lo] - s.pos
 	}
 	copy(p, s.data[s.pos:s.pos+n])
 	s.pos += n
